@@ -5,6 +5,14 @@ from hypothesis import strategies as st
 
 from .machine import Exec, Drawer, config_st
 from .runner import Violation, run_given
+from .watchdog import BusyLoop
+
+
+def busy_violation(prop, ex, e):
+    """Library code that spins for ever while serving a step: the step never completes."""
+    a = ex.actions[-1] if ex.actions else {'op': 'drain'}
+    return Violation(prop, ex.impl, 'step-never-completes', 'busy-loop|' + a.get('op', '?'),
+                     'while executing %r: %s' % (short(a), e))
 
 
 def run_trace(prop, case, monitors, on_done=None, world_kw=None):
@@ -23,6 +31,10 @@ def run_trace(prop, case, monitors, on_done=None, world_kw=None):
         except Violation as v:
             v.case = dict(case, actions=list(ex.actions))
             raise
+        except BusyLoop as e:
+            v = busy_violation(prop, ex, e)
+            v.case = dict(case, actions=list(ex.actions))
+            raise v
         if on_done:
             on_done(ex)
     finally:
@@ -60,14 +72,16 @@ def history_property(ctx, prop, profile, monitors, summarize, max_examples, step
                 ex.drain(profile.get('horizon'), profile.get('keep_policies', False))
                 for m in monitors:
                     m(ex, True)
-            except Violation as v:
+            except (Violation, BusyLoop) as v:
+                if isinstance(v, BusyLoop):
+                    v = busy_violation(prop, ex, v)
                 case['actions'] = list(ex.actions)
                 if profile.get('horizon') is not None:
                     case['horizon'] = profile['horizon']
                 if profile.get('keep_policies'):
                     case['keep_policies'] = True
                 v.case = case
-                raise
+                raise v
             extra, nt, classes = summarize(ex)
             rep = {'impl': impl, 'config': config,
                    'ops': [short(a) for a in ex.actions], 'obs': extra}
